@@ -45,6 +45,15 @@ class Collection(Object):
         instance.cls = collection.Collection
         return instance
 
+    def __call__(self):
+        instance = super().__call__()
+        # item_number (the next index used by append, part of the identifier) is not
+        # stored: positional items are stored under "0", "1", ...
+        instance.item_number = sum(
+            1 for child in self.children if str(child.name).isdigit()
+        )
+        return instance
+
 
 class Model(Object):
     """
